@@ -3,5 +3,5 @@
 tier=$1; shift
 for c in "$@"; do
   rm -f /root/dumps/$c.${tier:0:1}
-  VERIF_DUMP=/root/dumps/$c.${tier:0:1} /verif/check $c $tier 2>&1 | tail -1
+  VERIF_DUMP=/root/dumps/$c.${tier:0:1} "$(dirname "$(readlink -f "$0")")"/check $c $tier 2>&1 | tail -1
 done
